@@ -127,7 +127,13 @@ def run(ctx: Ctx):
                     ("Pacific/Pago_Pago", date(1967, 1, 1), date(1967, 4, 24)), ("Asia/Manila", date(1977, 1, 1), date(1978, 3, 23)),
                     ("Pacific/Kiritimati", date(1993, 1, 1), date(1995, 1, 2)), ("Europe/Berlin", date(2019, 1, 1), date(2019, 4, 1)),
                     ("America/New_York", date(2019, 3, 10), date(2019, 11, 4)), ("Pacific/Guam", date(1975, 1, 1), date(1977, 4, 25))]
+            # short windows over years in which a zone changed its offset four times (DST suspended during Ramadan, rule changes)
+            busy = [("Africa/Cairo", date(2014, 4, 1), date(2014, 12, 31)), ("Africa/Casablanca", date(2017, 1, 1), date(2017, 12, 31)),
+                    ("Africa/El_Aaiun", date(2017, 2, 1), date(2017, 12, 31)), ("America/Montevideo", date(1974, 1, 1), date(1974, 12, 31)),
+                    ("Africa/Casablanca", date(2012, 1, 1), date(2018, 12, 31)), ("Europe/Berlin", date(2014, 1, 1), date(2014, 12, 31)),
+                    ("Africa/Cairo", date(2010, 6, 1), date(2011, 1, 1)), ("Asia/Gaza", date(2011, 1, 1), date(2012, 1, 1))]
             jobs = [(tzid, f, l, False) for tzid in ids for (f, l) in (windows if tzid in HARD or not ctx.quick else windows[:1])]
+            jobs += [(tzid, f, l, False) for tzid, f, l in busy]
             jobs += [(tzid, f, l, True) for tzid, f, l in edge]
             for tzid, f, l, tight in jobs:
                 for _once in (0,):
